@@ -1,1 +1,2 @@
 pub mod shapes;
+pub mod values;
